@@ -56,8 +56,17 @@ def gen_inputs(rng, count, n=3):
         b = [rng.choice([-1, 0, 1, 3]) for _ in range(n)]
         if rng.random() < .15:
             b = [0] * n
-        inp = dict(kind=kind, A=A, b=b, hasl0=False, l0=[0] * n, ck='none', cm=[False] * n, cv=[0] * n, rk=False, rm=[False] * n, dtol=0)
+        inp = dict(kind=kind, A=A, b=b, hasl0=False, l0=[0] * n, ck='none', cm=[False] * n, cv=[0] * n, rk=False, rm=[False] * n, dtol=0,
+                   solver='direct', precon='direct', atol=0)
         if kind == 'solve':
+            if rng.random() < .4:
+                # a named solver / preconditioner / requested tolerance combination of its own (Method and Certify steps of the model)
+                inp['solver'], inp['precon'], inp['atol'] = rng.choice([('direct', 'diag', 1), ('direct', 'diag', 2), ('direct', 'diag', 5), ('direct', 'diag', 0),
+                                                                         ('arnoldi', 'diag', 1), ('arnoldi', 'direct', 1), ('direct', 'direct', 2), ('direct', 'direct', 4)])
+                if inp['precon'] == 'diag' and rng.random() < .7:
+                    for k in range(n):
+                        if A[k][k] == 0:
+                            A[k][k] = rng.choice([-2, 1, 3])
             inp['hasl0'] = rng.random() < .6
             if inp['hasl0']:
                 inp['l0'] = [rng.choice([-3, -1, 0, 2, 5]) for _ in range(n)]
@@ -109,7 +118,7 @@ def gen_project(rng, n):
     # drop tolerance between the end-dof rows (12, 6) and the interior rows (24, 6): the real matrix is A / 6
     dtol = rng.choice([0, 0, 15])
     return dict(kind='project', A=A, b=b, hasl0=False, l0=[0] * n, ck='float', cm=cm, cv=cv, rk=False, rm=[False] * n, dtol=dtol,
-                proj=dict(a=a, b=bb, f=f))
+                solver='direct', precon='direct', atol=0, proj=dict(a=a, b=bb, f=f))
 
 
 def predictions(rep, inputs, n, tag):
@@ -124,13 +133,17 @@ def predictions(rep, inputs, n, tag):
     rep.add_tlc(res)
     if res.violated:
         raise RuntimeError('LinSolve: design invariant {} violated on a harness-chosen input:\n{}'.format(res.violated, '\n'.join(res.error_trace[-30:])))
-    key = lambda d: json.dumps({k: d[k] for k in ('kind', 'A', 'b', 'hasl0', 'l0', 'ck', 'cm', 'cv', 'rk', 'rm', 'dtol')}, sort_keys=True)
-    pred = {key(e['inp']): e for e in res.emitted}
+    key = lambda d: json.dumps({k: d[k] for k in ('kind', 'A', 'b', 'hasl0', 'l0', 'ck', 'cm', 'cv', 'rk', 'rm', 'dtol', 'solver', 'precon', 'atol')}, sort_keys=True)
+    pred = {}
+    for e in res.emitted:
+        pred.setdefault(key(e['inp']), []).append(e)      # the arnoldi/diag method is nondeterministic in the model: several terminal states
     out = []
     for inp in inputs:
-        p = pred.get(key(inp))
-        if p is None:
+        ps = pred.get(key(inp))
+        if not ps:
             raise RuntimeError('LinSolve emitted no prediction for input {}'.format(inp))
+        p = dict(ps[0])
+        p['allowed'] = sorted({q['outcome'] for q in ps})
         out.append(p)
     return out
 
@@ -208,6 +221,8 @@ def replay_solve(rep, rng, inp, pred, tier):
     b = numpy.array(inp['b'], dtype=float)
     cm = numpy.array(inp['cm'])
     nviol = 0
+    if (inp['solver'], inp['precon'], inp['atol']) != ('direct', 'direct', 0):
+        return replay_method(rep, rng, inp, pred)
     for backend in backends():
         solvers = SOLVERS[backend]
         for sname in solvers:
@@ -324,6 +339,78 @@ def replay_solve(rep, rng, inp, pred, tier):
                         rep.violation(sig + ':' + bad[0], 'solve_linear on {} backend: {}'.format(backend, bad[1]),
                                       dict(inp=inp, pred=pred, backend=backend, x=numpy.asarray(x).tolist()))
                         nviol += 1
+    return nviol
+
+
+def replay_method(rep, rng, inp, pred):
+    """a named solver with a named preconditioner and a requested absolute tolerance: the Method / Certify steps of the model.
+    The model's outcome set (return / MatrixError / ToleranceNotReached; several for the nondeterministic arnoldi+diag) must contain
+    the observed class, a returned vector must be certified (constraints exact, free residual within the requested tolerance,
+    independent dense recomputation) and, where the model's method is deterministic, equal the predicted vector"""
+    import treelog
+    from nutils import matrix
+    n = len(inp['b'])
+    b = numpy.array(inp['b'], dtype=float)
+    cm = numpy.array(inp['cm'])
+    nviol = 0
+    if inp['atol'] and pred['res2'] == pred['bound2'] and not pred.get('exact', True):
+        rep.skip('residual of the inexact method ties with the requested tolerance (decided by rounding)')
+        return 0
+    for backend in backends():
+        kwargs = dict(solver=inp['solver'], precon=inp['precon'])
+        atol = float(inp['atol'])
+        if atol:
+            kwargs['atol'] = atol
+        if inp['hasl0']:
+            kwargs['lhs0'] = numpy.array(inp['l0'], dtype=float)
+        if inp['ck'] == 'bool':
+            kwargs['constrain'] = cm.copy()
+        elif inp['ck'] == 'float':
+            kwargs['constrain'] = numpy.where(cm, numpy.array(inp['cv'], dtype=float), numpy.nan)
+        if inp['rk']:
+            kwargs['rconstrain'] = numpy.array(inp['rm'])
+        with matrix.backend(backend), warnings.catch_warnings(), numpy.errstate(all='ignore'), treelog.set(_NULL):
+            warnings.simplefilter('ignore')
+            M = _matrix(inp['A'])
+            try:
+                x = M.solve(b, **kwargs)
+                obs = 'return'
+            except matrix.ToleranceNotReached as e:
+                obs, x, detail = 'ToleranceNotReached', None, repr(e)[:120]
+            except Exception as e:
+                obs, x, detail = _exc_class(e), None, repr(e)[:120]
+        sig = 'Matrix.solve[{}+{}]'.format(inp['solver'], inp['precon'])
+        rep.case(('method', backend, inp['solver'], inp['precon'], inp['atol'] > 0, inp['ck'], inp['rk'], tuple(pred['allowed']), pred['k']))
+        if obs not in ('return', 'MatrixError', 'ToleranceNotReached'):
+            rep.violation('{}:raises-{}'.format(sig, obs), 'Matrix.solve raised {} ({})'.format(obs, detail), dict(inp=inp, pred=pred, backend=backend, kwargs=repr(kwargs)))
+            nviol += 1
+            continue
+        if obs == 'return':
+            # certification is demanded of every returned vector whatever the model's method did (atol = 0 with an inexact method: not judged)
+            bad = None
+            if atol or pred.get('exact', True):
+                bad = check_solution(inp, dict(pred, outcome='return' if pred['outcome'] == 'return' and pred.get('exact', True) and not atol else 'MatrixError'), x, atol, sig)
+            if bad is None and 'return' not in pred['allowed'] and numpy.sum(pred['free']) != numpy.sum(pred['rows']):
+                bad = ('not-square-returned', 'non-square constrained system returned')
+            if bad is None and inp['solver'] == 'direct' and pred['outcome'] == 'return' and not pred['short']:
+                # deterministic method: the exact vector the model predicts (lhs + D^-1 r, or the exact solution)
+                exp = _expected(pred)
+                if (abs(numpy.asarray(x) - exp) > 1e-9 * (1 + abs(exp))).any():
+                    bad = ('value', 'returned {} but the model method returns {}'.format(numpy.asarray(x).tolist(), exp.tolist()))
+            if bad is None and pred['allowed'] == ['ToleranceNotReached']:
+                bad = ('uncertified-return', 'the model certifies no answer within atol={} (ToleranceNotReached) but the code returned {}'.format(atol, numpy.asarray(x).tolist()))
+            if bad:
+                rep.violation('{}:{}'.format(sig, bad[0]), 'Matrix.solve on {} backend: {}'.format(backend, bad[1]),
+                              dict(inp=inp, pred=pred, backend=backend, kwargs=repr(kwargs), x=numpy.asarray(x).tolist()))
+                nviol += 1
+        elif obs not in pred['allowed']:
+            if obs == 'MatrixError' and pred['allowed'] == ['ToleranceNotReached']:
+                continue       # raising the base class instead of returning is still "raises"
+            if obs == 'ToleranceNotReached' and inp['solver'] == 'arnoldi':
+                continue       # the Krylov iteration may stall where the model's exact branch applies; raising is allowed
+            rep.violation('{}:{}-where-model-{}'.format(sig, obs, '+'.join(pred['allowed'])), 'model: {}; code raised {}'.format(pred['allowed'], detail),
+                          dict(inp=inp, pred=pred, backend=backend, kwargs=repr(kwargs)))
+            nviol += 1
     return nviol
 
 
